@@ -22,7 +22,7 @@ RULE = ('one evaluation = one seeded simulated run: 2-4 clients (threads sharing
         'between clients; distinct = distinct SHA-256 of the full seam event log')
 ASSUMPTIONS = ['interleaving granularity is the seam call (and sampled source lines in shared-object runs); SQLite statements are atomic',
                'iteration is checked for per-key weak consistency, not as an atomic snapshot (generator protocol)']
-PROBES = ('lock_wait', 'stmt_blocked', 'tolerated_miss', 'file_backed_read', 'line_yield_runs', 'bulk_removal_races')
+PROBES = ('lock_wait', 'stmt_blocked', 'tolerated_miss', 'file_backed_read', 'line_yield_runs', 'bulk_removal_races', 'iterations_over_pages')
 
 KEYS = ['a', 'b', {'t': [1, 'x']}]
 COUNTERS = ['n', 7]
@@ -77,12 +77,29 @@ def gen_case(seed, tier):
         # replace rows it has yet to reach: a row may only go while it still matches - a completed replacement with
         # another tag and no expiry must survive evict('old') / expire()
         n = rng.choice((101, 120, 150))
-        bulk = rng.choice(('evict', 'evict', 'expire', 'clear'))
+        bulk = rng.choice(('evict', 'evict', 'expire', 'clear', 'iter', 'iter'))
         prefill = {'n': n, 'bulk': bulk}
         progs = {'c0': [{'op': bulk, 'retry': True}]}
         if bulk == 'evict':
             progs['c0'][0]['tag'] = 'old'
-        for ci in range(1, rng.choice((2, 2, 3))):
+        if bulk == 'iter':
+            # iteration (pages of 100 keys) next to clients removing keys it has passed and adding new ones: every key that
+            # is there from start to end is reported exactly once
+            n = prefill['n'] = rng.choice((150, 210, 260))
+            progs['c0'] = [{'op': rng.choice(('iter', 'reversed', 'iterkeys'))} for _ in range(rng.choice((1, 2)))]
+            for ci in range(1, rng.choice((2, 3))):
+                prog = []
+                for j in range(rng.randint(3, 8)):
+                    k = 10000 + rng.randrange(n)
+                    r = rng.random()
+                    if r < 0.6:
+                        prog.append({'op': rng.choice(('delete', 'pop', 'delitem')), 'k': k, **({'retry': True} if r < 0.3 else {})})
+                    elif r < 0.8:
+                        prog.append({'op': 'set', 'k': 20000 + ci * 100 + j, 'v': uniq_value(rng, ci, j, big_n), 'retry': True})
+                    else:
+                        prog.append({'op': 'set', 'k': k, 'v': uniq_value(rng, ci, j, big_n), 'retry': True})
+                progs['c%d' % ci] = prog
+        for ci in range(1, rng.choice((2, 2, 3)) if bulk != 'iter' else 1):
             prog = []
             for j in range(rng.randint(2, 5)):
                 k = 10000 + rng.choice((rng.randrange(n), rng.randrange(95, n), n + rng.randrange(3)))
@@ -114,8 +131,11 @@ def uniq_value(rng, ci, j, big_n):
         return {'b': tag.encode().hex()}
     if r < 0.85:
         return {'big': ['bytes', big_n, tag]}
-    if r < 0.93:
+    if r < 0.90:
         return {'big': ['str', big_n, tag]}
+    if r < 0.96:
+        # an object whose pickling calls back into Python: a pre-emption point in the middle of serialising one value
+        return {'rec': [tag, rng.choice((0, big_n))]}
     return {'t': [tag, ci, j]}
 
 
@@ -181,7 +201,7 @@ def prefill_state(prefill, keys):
 
 
 def check_history(history, violations, probes, prefill=None):
-    ops = [h for h in history if h['op']['op'] != 'iter']
+    ops = [h for h in history if h['op']['op'] not in ('iter', 'reversed', 'iterkeys')]
     init = frozenset()
     if prefill:
         keys = []
@@ -224,6 +244,8 @@ def check_bulk_complete(case, out, violations):
     """A bulk removal that returned normally has removed every row that matched from its start to its end: the prefilled
     rows no client wrote to."""
     pre = case['cfg']['prefill']
+    if pre['bulk'] == 'iter':
+        return
     done = [h for h in out['history'] if h['op']['op'] == pre['bulk'] and h.get('ret') is not None and h['res'][0] == 'ok']
     if not done:
         return
@@ -233,6 +255,37 @@ def check_bulk_complete(case, out, violations):
         violations.append({'rule': 'C05/bulk-removal-incomplete', 'sig': pre['bulk'],
                            'detail': '%s() returned %s and left %d matching rows nobody wrote to, e.g. key %r' % (
                                pre['bulk'], done[0]['res'], len(left), left[0])})
+
+
+def check_iter_prefill(case, out, violations, probes):
+    """Iterations over a prefilled cache: no key twice, every prefilled key that no client ever removed or replaced is
+    reported, and nothing that never existed."""
+    pre = case['cfg']['prefill']
+    if pre['bulk'] != 'iter':
+        return
+    hist = out['history']
+    touched = {h['op']['k'] for h in hist if 'k' in h['op'] and h['op']['op'] in ('delete', 'pop', 'delitem', 'set', 'add', 'setitem')}
+    stable = [fp(10000 + i) for i in range(pre['n']) if 10000 + i not in touched]
+    known = {fp(10000 + i) for i in range(pre['n'])} | {fp(h['op']['k']) for h in hist if 'k' in h['op']}
+    for it in hist:
+        if it['op']['op'] not in ('iter', 'reversed', 'iterkeys') or it.get('ret') is None or it['res'][0] != 'ok':
+            continue
+        keys = json.loads(it['res'][1][5:])
+        probes['iterations_over_pages'] = probes.get('iterations_over_pages', 0) + 1
+        seen = set(keys)
+        if len(keys) != len(seen):
+            violations.append({'rule': 'C05/iteration', 'sig': 'duplicate-key', 'detail': '%d keys, %d distinct' % (len(keys), len(seen))})
+            return
+        missing = [k for k in stable if k not in seen]
+        if missing:
+            violations.append({'rule': 'C05/iteration', 'sig': 'stable-key-missing',
+                               'detail': '%s() did not report %d keys that were present from start to end, e.g. %s' % (
+                                   it['op']['op'], len(missing), missing[0])})
+            return
+        extra = [k for k in keys if k not in known]
+        if extra:
+            violations.append({'rule': 'C05/iteration', 'sig': 'phantom-key', 'detail': str(extra[:3])})
+            return
 
 
 def check_iterations(history, violations):
@@ -338,7 +391,9 @@ def run_case(case):
     check_history(out['history'], violations, probes, case['cfg'].get('prefill'))
     if case['cfg'].get('prefill') and not violations:
         check_bulk_complete(case, out, violations)
-    check_iterations(out['history'], violations)
+        check_iter_prefill(case, out, violations, probes)
+    if not case['cfg'].get('prefill'):
+        check_iterations(out['history'], violations)
     problems, empties, info = out['audit']
     if problems:
         violations.append({'rule': 'C05/audit', 'sig': ','.join(sorted({p[0] for p in problems})),
